@@ -37,6 +37,14 @@ func checkLocation(j *proto.Job, res *proto.Result) (out [][2]string) {
 		}
 		return [][2]string{{"location:foreign-file", fmt.Sprintf("error names file %q which is not a file of the project", e.File)}}
 	}
+	if string(content) == "@@FIFO@@" || (strings.HasPrefix(string(content), "@@SYMLINK:") && strings.HasSuffix(string(content), "@@")) {
+		// the job's text for this file is the harness's marker for a named pipe or a symbolic link, not what is on the disk: a file
+		// that cannot be read has no content to locate in (like a missing root file)
+		if e.Index == 0 && ((e.Line == 0 && e.Column == 0) || (e.Line == 1 && e.Column == 1)) {
+			return nil
+		}
+		return [][2]string{{"location:unreadable-file", fmt.Sprintf("%s is not a regular file, the error says index %d line %d column %d", name, e.Index, e.Line, e.Column)}}
+	}
 	if e.Index < 0 || e.Index > len(content) {
 		return [][2]string{{"location:index-out-of-file", fmt.Sprintf("index %d outside file %s of %d bytes", e.Index, name, len(content))}}
 	}
